@@ -466,4 +466,59 @@ theorem run_spec_via_source_tables (rnd : Rat → Rat) (info : PyDict) (txs : Li
 
 end Phase5Shapes
 
+/-! ### phase 6: order independence for logs in which the SAME id is recorded several times
+
+Phase 3 left open: "invariant under permutations that keep the relative order of the records of each id".  `SameKeyOrder a b` says exactly
+that (for every dictionary entry of `TransactionResult` — experiment, (table, id), id triple — the records going to it are the same and in
+the same order); no hypothesis on the records themselves (any ids, any number of repeats, pinned or repaired reader). -/
+section Phase6
+
+/-- [phase 6] the Result and the padded tables read from a log depend only on the relative order of the records of each single id -/
+theorem same_key_order_invariant (fr : Bool) (n : Int) (a b : List Rec) (h : SameKeyOrder a b) :
+    readLog fr (.version n :: a) = readLog fr (.version n :: b) ∧ tablesOf fr (.version n :: a) = tablesOf fr (.version n :: b) :=
+  readLog_same_key_order' fr n a b h
+
+/-- the hypothesis is needed: swapping two records of the SAME id changes the learners table (later values win) -/
+theorem same_key_order_counterexample :
+    (readLog true [.version 4, .comp .L 0 [("x", .int 1)], .comp .L 0 [("x", .int 2)]]).toOption.map (·.learners)
+        = some [[("learner_id", .int 0), ("x", .int 2)]]
+    ∧ (readLog true [.version 4, .comp .L 0 [("x", .int 2)], .comp .L 0 [("x", .int 1)]]).toOption.map (·.learners)
+        = some [[("learner_id", .int 0), ("x", .int 1)]] := same_key_order_counterexample'
+
+/-- non-vacuity: a rearrangement that moves a record of learner 1 between the two records of learner 0 -/
+example : SameKeyOrder [.comp .L 0 [("x", .int 1)], .comp .L 0 [("x", .int 2)], .comp .L 1 []]
+                       [.comp .L 0 [("x", .int 1)], .comp .L 1 [], .comp .L 0 [("x", .int 2)]] := by
+  intro k
+  by_cases h0 : k = .comp .L 0
+  · subst h0; simp [recKey]
+  · by_cases h1 : k = .comp .L 1
+    · subst h1; simp [recKey]
+    · have e0 : ¬ RecKey.comp .L 0 = k := fun e => h0 e.symm
+      have e1 : ¬ RecKey.comp .L 1 = k := fun e => h1 e.symm
+      simp [recKey, e0, e1]
+
+/-- `regroupBy ks` (pull the records of every key of `ks` to the front, one key after the other) keeps every id's records in order
+and loses / duplicates nothing -/
+theorem regroupBy_sameKeyOrder (ks : List RecKey) (recs : List Rec) :
+    SameKeyOrder recs (regroupBy ks recs) ∧ (regroupBy ks recs).Perm recs :=
+  ⟨regroupBy_sameKeyOrder' ks recs, regroupBy_perm ks recs⟩
+
+/-- the grouped log the driver evaluates (and the harness writes to disk) reads back as the original one -/
+theorem regroupLog_same (fr : Bool) (recs : List Rec) :
+    readLog fr (regroupLog recs) = readLog fr recs ∧ tablesOf fr (regroupLog recs) = tablesOf fr recs :=
+  regroupLog_same' fr recs
+
+/-- [phase 6, key handling] `1`, `True` and `1.0` are equal as Python dictionary keys but are three field names for the encoder (`str(k)`:
+`'1'`, `'True'`, `'1.0'`, each row filling only its own column) and three keys for json (`'1'`, `'true'`, `'1.0'`) — the general statements are
+`pack_unpack` / `strKeys_spec` / `wire_normalises`, which speak about `str(key)` resp. the json key only; this is the concrete instance the harness
+family `key:python-equal-names` replays on the real code -/
+theorem python_equal_names_kept_apart (a b c : Val) :
+    pack [[(Key.int 1, a)], [(Key.bool true, b)], [(Key.other "1.0", c)]]
+      = [("1", [a, .none, .none]), ("1.0", [.none, .none, c]), ("True", [.none, b, .none])]
+    ∧ jsonify (.dict [(Key.int 1, a), (Key.bool true, b), (Key.other "1.0", c)])
+      = .dict [(Key.str "1", jsonify a), (Key.str "true", jsonify b), (Key.str "1.0", jsonify c)] :=
+  python_equal_names_kept_apart' a b c
+
+end Phase6
+
 end Coba.C07
